@@ -701,6 +701,44 @@ func runC09(e *Env) {
 	for _, t := range []string{"2", "33", "70000"} {
 		add("flag-value", "any", c09ValidDoc, "write", "--track", t)
 	}
+	// pairs of flags on one command line: every two flags of write / write event, each with a valid
+	// and a nonsense value (all-valid lines must succeed, the others fail in the documented shape)
+	type fv struct {
+		flag       string
+		good, bad  string
+		badIsError bool
+	}
+	wflags := []fv{{"--bpm", "90", "2", true}, {"--meter", "3/4", "4/3", true}, {"--key", "Eb", "H", true}, {"--velocity", "mp", "xx", true},
+		{"--track", "3", "0", true}, {"--program", "40", "300", true}, {"--instrument", "Organ", "", false}, {"--debug", "", "", false}}
+	for _, cmd := range [][]string{{"write"}, {"write", "event"}} {
+		for i := 0; i < len(wflags); i++ {
+			for j := i + 1; j < len(wflags); j++ {
+				for mask := 0; mask < 4; mask++ {
+					args := append([]string{}, cmd...)
+					expect := "ok"
+					for n, f := range []fv{wflags[i], wflags[j]} {
+						v := f.good
+						if mask>>uint(n)&1 == 1 {
+							v = f.bad
+							if f.badIsError {
+								expect = "fail"
+							}
+						}
+						if f.flag == "--debug" {
+							args = append(args, f.flag)
+						} else {
+							args = append(args, f.flag, v)
+						}
+					}
+					label := "flag-pair"
+					if expect == "fail" {
+						label = "flag-pair/nonsense"
+					}
+					cases = append(cases, c09Case{Label: label, Args: args, Stdin: c09ValidDoc, Expect: expect, OutArg: mask%2 == 1})
+				}
+			}
+		}
+	}
 	// a flag given many times: more dictionary files than there are CPUs, buffers or workers
 	for _, n := range []int{2, 3, 17, 40, 130, 300} {
 		files := map[string]string{}
@@ -790,7 +828,7 @@ func runC09(e *Env) {
 	e.R.AddPart(ev.Part{Name: "short-inputs-cli", Enumerated: fmt.Sprintf("real binary: every chord text of length <= %d over 22 symbols (C04's alphabet + NUL, 0xFF, 0xC3, ♯, CR) on text parse / conv degree / conv syllable; every YAML string of length <= 2 over 15 symbols on write / write event / write parse / write conv; every string of length <= 2 over C04's alphabet (and 14 longer ones) as the -t target of info chord describe, 9 x 8 (target, root) pairs of info attr describe", tl), Executions: int64(nShort), Exhaustive: true})
 	e.R.AddPart(ev.Part{Name: "one-deviation-mutants-cli", Enumerated: fmt.Sprintf("real binary: every truncation, deletion, and replacement/insertion by each of 20 bytes at every position of %s", map[bool]string{true: "3 chord texts, 3 instance documents, a chord file and an attribute file", false: "1 chord text, 1 instance document and a chord file"}[e.Thorough]), Executions: int64(nMut), Exhaustive: true})
 	e.R.AddPart(ev.Part{Name: "nonsense-table-cli", Enumerated: "real binary: {zero / zero-denominator durations, no durations, bpm 0, unknown dynamic, bad meter, unknown symbol, unknown modifier / conversion / target, keys without scale (H, c, Cmaj, Fb, E#m, Abm, and a key name with anything before, after or around it: xxG#yy, XAm, Key of G, E#Gb, Amx, G major, CC, ...), mixed notation, empty piece, inconsistent dictionaries} x {text metadata, YAML field, flag} x every command that has to interpret it, each also with -o and with the input given as a FILE argument; nonsense that a stage may pass on is piped into `write`, which must refuse it; plus unusual dictionary files (deep extends chain, YAML anchors/alias cycle, empty/null entries) held to the failure-shape oracle", Executions: int64(nTable), Exhaustive: true})
-	e.R.AddPart(ev.Part{Name: "flag-values-cli", Enumerated: "real binary: every value flag of every command x {empty, 0, -1, abc, 1e3, 2^64-1, 2^64, 300 digits, invalid UTF-8, C, 1/2}; --track 2, 33, 70000; 2..300 dictionary files on one command line; valid baselines", Executions: int64(nFlags), Exhaustive: true})
+	e.R.AddPart(ev.Part{Name: "flag-values-cli", Enumerated: "real binary: every value flag of every command x {empty, 0, -1, abc, 1e3, 2^64-1, 2^64, 300 digits, invalid UTF-8, C, 1/2}; --track 2, 33, 70000; 2..300 dictionary files on one command line; every pair of write flags x {valid, nonsense} values; valid baselines", Executions: int64(nFlags), Exhaustive: true})
 
 	// in-process short inputs (longer than through the binary)
 	var libTexts []string
